@@ -283,6 +283,26 @@ func (be *backend) apply(o op) (out string) {
 			kvs = append(kvs, kv{append([]byte(nil), k...), valStr(v)})
 		}
 		sort.Slice(kvs, func(i, j int) bool { return bytes.Compare(kvs[i].k, kvs[j].k) < 0 })
+		// a consumer may stop early: the iterator must then stop too (no further yield, no panic),
+		// and what it yielded first must be one of the bucket's pairs
+		for stopAfter := 1; stopAfter <= 2 && stopAfter <= len(kvs); stopAfter++ {
+			yields := 0
+			for k, v := range bk.Iter() {
+				yields++
+				found := false
+				for _, e := range kvs {
+					if bytes.Equal(e.k, k) && e.v == valStr(v) {
+						found = true
+					}
+				}
+				if !found {
+					return fmt.Sprintf("early-stop iteration yielded %x=%s, which a full iteration does not contain", k, valStr(v))
+				}
+				if yields == stopAfter {
+					break
+				}
+			}
+		}
 		var sb strings.Builder
 		sb.WriteString("kvs")
 		for i, e := range kvs {
